@@ -38,99 +38,188 @@ def _canon(l, aliases):
     return out
 
 
+class _FoldWindows(ast.NodeTransformer):
+    """``X[a:b][i]`` -> ``X[a + i]`` and ``X[a:b][c:]`` -> ``X[a + c:b]`` for a window that starts at a (symbolic, non-negative)
+    cursor: inside a frame parser the cursor starts at 0 and only grows."""
+
+    def visit_Subscript(self, node):
+        self.generic_visit(node)
+        v, sl = node.value, node.slice
+        if isinstance(v, ast.Subscript) and isinstance(v.slice, ast.Slice) and v.slice.step is None and v.slice.lower is not None and v.slice.upper is not None:
+            a = v.slice.lower
+            if isinstance(sl, ast.Constant) and isinstance(sl.value, int) and not isinstance(sl.value, bool) and sl.value >= 0:
+                return ast.Subscript(value=v.value, slice=ast.BinOp(left=a, op=ast.Add(), right=sl), ctx=node.ctx)
+            if isinstance(sl, ast.Slice) and sl.step is None and sl.upper is None and isinstance(sl.lower, ast.Constant) and isinstance(sl.lower.value, int) and sl.lower.value >= 0:
+                return ast.Subscript(value=v.value, slice=ast.Slice(lower=ast.BinOp(left=a, op=ast.Add(), right=sl.lower), upper=v.slice.upper, step=None), ctx=node.ctx)
+        return node
+
+
+def _implied(cond, outcome):
+    """(atom, truth) pairs that hold when ``cond`` evaluates to ``outcome``"""
+    if isinstance(cond, ast.UnaryOp) and isinstance(cond.op, ast.Not):
+        yield from _implied(cond.operand, not outcome)
+    elif isinstance(cond, ast.BoolOp) and ((isinstance(cond.op, ast.Or) and not outcome) or (isinstance(cond.op, ast.And) and outcome)):
+        for v in cond.values:
+            yield from _implied(v, outcome)
+    else:
+        yield cond, outcome
+
+
 def frame_reader(repo, qual):
-    """Facts about one of the two sibling frame parsers."""
+    """Facts about one of the two sibling frame parsers, read off the summary of one loop iteration.
+
+    The loop either consumes its stream (``while data: ... data = data[k:]``: the frame is at offset 0 of what is left) or walks
+    a cursor over it (``while pos < len(data): ... pos += k``: the frame is at ``pos``).  Every offset below is relative to
+    the start of the frame; ``LEN`` stands for the decoded payload length."""
+    from ..funsum import Summarizer
     f = repo.func("iwafile.py", qual)
     env = repo.consts
     data = f.args.args[-1].arg
-    loops = [n for n in body_walk(f) if isinstance(n, ast.While) and U(n.test) == data]
-    if not loops:
+    top = {}
+    loop = None
+    for st in f.body:
+        if isinstance(st, ast.While):
+            loop = st
+            break
+        if isinstance(st, ast.Assign) and len(st.targets) == 1 and isinstance(st.targets[0], ast.Name):
+            top[st.targets[0].id] = st.value
+    if loop is None:
         raise AnalysisError(f"{qual}: `while {data}:` loop not found")
-    loop = loops[0]
-    info = {"func": f, "loop": loop}
-    hname = hsize = None
-    for n in ast.walk(loop):
-        if isinstance(n, ast.Assign) and isinstance(n.value, ast.Subscript) and U(n.value.value) == data and isinstance(n.value.slice, ast.Slice):
-            sl = n.value.slice
-            if sl.lower is None and sl.upper is not None and hname is None:
-                hname, hsize = U(n.targets[0]), try_const(sl.upper, env)
-                info["header_node"] = n
-    if hname is None:
-        raise AnalysisError(f"{qual}: header slice `x = {data}[:4]` not found")
-    info["hname"], info["header_size"] = hname, hsize
-    src_lens = {hname: hsize if isinstance(hsize, int) else HEADER}
-    locals_ = {}
-    for n in ast.walk(loop):
-        if isinstance(n, ast.Assign) and isinstance(n.targets[0], ast.Name):
-            locals_[n.targets[0].id] = n.value
-    marker = None
-    for n in ast.walk(loop):
-        if isinstance(n, ast.Compare) and len(n.ops) == 1 and isinstance(n.ops[0], (ast.NotEq, ast.Eq)):
-            c = try_const(n.comparators[0], env)
-            left = n.left
-            if isinstance(left, ast.Name) and left.id in locals_:
-                left = locals_[left.id]
-            if isinstance(c, int) and not isinstance(c, bool) and U(left) == f"{hname}[0]":
-                marker = c
-                info["marker_node"] = n
-    info["marker"] = marker
+
+    def is_len(e):
+        if isinstance(e, ast.Name) and e.id in top:
+            e = top[e.id]
+        return U(e).replace(" ", "") == f"len({data})"
+
+    t = loop.test
+    pos = None
+    if isinstance(t, ast.Name) and t.id == data:
+        pass
+    elif isinstance(t, ast.Compare) and len(t.ops) == 1:
+        l_, r_ = t.left, t.comparators[0]
+        if isinstance(t.ops[0], (ast.Lt, ast.NotEq)) and isinstance(l_, ast.Name) and is_len(r_):
+            pos = l_.id
+        elif isinstance(t.ops[0], (ast.Gt, ast.NotEq)) and isinstance(r_, ast.Name) and is_len(l_):
+            pos = r_.id
+    if not (isinstance(t, ast.Name) and t.id == data) and pos is None:
+        raise AnalysisError(f"{qual}: `while {data}:` loop not found")
+    info = {"func": f, "loop": loop, "pos": pos, "data": data, "top": top}
+    B = Lin(0, {pos: 1}) if pos else Lin(0)
+    src = {("base", data): B}
+    paths = Summarizer(consts=env, effect_calls={"*"}).block_paths(loop.body)
+    fold = lambda e: _FoldWindows().visit(ast.parse(U(e), mode="eval").body)  # noqa: E731
+    going = [p for p in paths if p.kind in ("fall", "continue")]
+    if not going:
+        raise AnalysisError(f"{qual}: no path continues to the next frame")
+
+    def values(p):
+        out = [(k, fold(v)) for k, v in (p.env or {}).items() if not k.startswith("__") and isinstance(v, ast.AST)]
+        out += [(k, fold(v)) for k, v, _n in p.effects if isinstance(v, ast.AST)]
+        return out
+
+    # ---- the length field: the outermost integer decode over bytes of the frame
     length_expr = None
-    for n in ast.walk(loop):
-        if isinstance(n, (ast.Subscript, ast.Call)) and int_weights(n, env, src_lens) is not None:
-            if length_expr is None or any(length_expr is x for x in ast.walk(n)):
-                length_expr = n
+    for p in going:
+        for _k, v in values(p):
+            for n in ast.walk(v):
+                if isinstance(n, (ast.Subscript, ast.Call)) and int_weights(n, env, src) is not None:
+                    if length_expr is None or (U(length_expr) != U(n) and U(length_expr) in U(n)):
+                        length_expr = n
     if length_expr is None:
         raise AnalysisError(f"{qual}: payload length decode not recognised")
-    info["length_expr"] = length_expr
-    info["weights"] = int_weights(length_expr, env, src_lens)
     ltxt = U(length_expr)
-    aliases = {ltxt}
-    for name, val in locals_.items():
-        if U(val) == ltxt:
-            aliases.add(name)
-    info["aliases"] = aliases
+    info["length_expr"] = next((n for n in ast.walk(loop) if isinstance(n, (ast.Subscript, ast.Call)) and ("unpack" in U(n) or "from_bytes" in U(n))), loop)
+    info["weights"] = int_weights(length_expr, env, src)
+    info["hname"] = data
 
     def L(e):
-        return _canon(lin(e, env), aliases)
+        """linear form relative to the start of the frame, LEN for the decoded length"""
+        e2 = ast.parse(U(e).replace(ltxt, "LEN"), mode="eval").body
+        l_ = lin(e2, env)
+        return None if l_ is None else l_ - B
 
-    def expand(l):
-        if l is None:
-            return None
-        for _ in range(3):
-            for sym in list(l.t):
-                if sym in locals_ and sym not in aliases:
-                    d = L(locals_[sym])
-                    if d is not None and sym not in d.t:
-                        l = l.subst(sym, d)
-        return l
+    # ---- marker: what must hold of byte 0 on every path that goes on
+    marker, mnode = None, None
+    for p in going:
+        got = None
+        for c, o in p.conds:
+            for a, truth in _implied(fold(c), o):
+                if isinstance(a, ast.Compare) and len(a.ops) == 1 and isinstance(a.ops[0], (ast.Eq, ast.NotEq)) and isinstance(a.left, ast.Subscript) \
+                        and not isinstance(a.left.slice, ast.Slice) and U(a.left.value) == data:
+                    k = try_const(a.comparators[0], env)
+                    idx = L(a.left.slice)
+                    if isinstance(k, int) and not isinstance(k, bool) and idx is not None and idx.is_const() and idx.c == 0 and isinstance(a.ops[0], ast.Eq) == truth:
+                        got = k
+        if got is None or (marker is not None and got != marker):
+            marker = None
+            break
+        marker = got
+    info["marker"] = marker
+    info["marker_node"] = next((n for n in ast.walk(loop) if isinstance(n, ast.Compare) and isinstance(n.ops[0], (ast.Eq, ast.NotEq))
+                                and isinstance(try_const(n.comparators[0], env), int)), loop)
+    used = {0} | {b[2] for b in (info["weights"] or {}) if b[0] == "src"}
+    info["header_size"] = max(used) + 1 if used == set(range(max(used) + 1)) else sorted(used)
+    info["header_node"] = loop
 
+    # ---- payload window and advance, the same on every path that goes on
     info["chunk"] = info["advance"] = None
-    for n in ast.walk(loop):
-        if isinstance(n, ast.Subscript) and U(n.value) == data and isinstance(n.slice, ast.Slice):
-            sl = n.slice
-            if sl.lower is not None and sl.upper is not None:
-                info["chunk"] = (expand(L(sl.lower)), expand(L(sl.upper)), n)
-            elif sl.lower is not None and sl.upper is None:
-                par = getattr(n, "_parent", None)
-                if isinstance(par, ast.Assign) and U(par.targets[0]) == data:
-                    info["advance"] = (expand(L(sl.lower)), n)
-    info["acc"] = []
-    info["dec"] = []
-    info["bound_guards"] = []
-    for n in ast.walk(loop):
-        if isinstance(n, ast.AugAssign) and isinstance(n.op, ast.Add) and U(n.target) != data:
-            info["acc"].append((U(n.target), expand(L(n.value)), n))
-        if isinstance(n, ast.AugAssign) and isinstance(n.op, ast.Sub) and U(n.target) != data:
-            info["dec"].append((U(n.target), expand(L(n.value)), n))
-        # ``if <a> > <b>: return False``: recorded as the linear form a - b (>= 1 on the refusing side)
-        if isinstance(n, ast.If) and any(isinstance(x, ast.Return) and try_const(x.value, default=None) is False for x in n.body):
-            tests = n.test.values if isinstance(n.test, ast.BoolOp) and isinstance(n.test.op, ast.Or) else [n.test]
-            for t in tests:
-                if isinstance(t, ast.Compare) and len(t.ops) == 1 and isinstance(t.ops[0], (ast.Gt, ast.Lt)):
-                    a, b = L(t.left), L(t.comparators[0])
-                    if a is not None and b is not None:
-                        a, b = expand(a), expand(b)
-                        info["bound_guards"].append((a - b) if isinstance(t.ops[0], ast.Gt) else (b - a))
+    chunk_set, adv_set = set(), set()
+    for p in going:
+        for _k, v in values(p):
+            for n in ast.walk(ast.parse(U(v).replace(ltxt, "LEN"), mode="eval").body):
+                if isinstance(n, ast.Subscript) and U(n.value) == data and isinstance(n.slice, ast.Slice) and n.slice.lower is not None and n.slice.upper is not None:
+                    lo, hi = L(n.slice.lower), L(n.slice.upper)
+                    if lo is not None and hi is not None and ("LEN" in lo.t or "LEN" in hi.t):
+                        chunk_set.add((str(lo), str(hi)))
+                        info["chunk"] = (lo, hi, loop)
+        fin = (p.env or {}).get(pos or data)
+        if fin is None:
+            adv_set.add("none")
+            continue
+        fin = fold(fin)
+        if pos:
+            a = L(fin)
+            adv_set.add(str(a))
+            info["advance"] = (a, loop)
+        else:
+            if isinstance(fin, ast.Subscript) and U(fin.value) == data and isinstance(fin.slice, ast.Slice) and fin.slice.upper is None and fin.slice.lower is not None:
+                a = L(fin.slice.lower)
+                adv_set.add(str(a))
+                info["advance"] = (a, loop)
+            else:
+                adv_set.add("?" + U(fin)[:40])
+    if len(adv_set) != 1:
+        info["advance"] = None
+    if len(chunk_set) > 1:
+        info["chunk"] = (None, None, loop)
+
+    # ---- running totals, remaining-bytes counters and bound checks (is_iwa_file)
+    info["acc"], info["dec"], info["bound_guards"] = [], [], []
+    for p in going:
+        for k, v in (p.env or {}).items():
+            if k.startswith("__") or k in (data, pos) or not isinstance(v, ast.AST):
+                continue
+            e2 = ast.parse(U(fold(v)).replace(ltxt, "LEN"), mode="eval").body
+            l_ = lin(e2, env)
+            if l_ is not None and l_.t.get(k) == 1:
+                d = l_ - Lin(0, {k: 1})
+                if k not in d.t and "LEN" in d.t:
+                    (info["acc"] if d.t["LEN"] > 0 else info["dec"]).append((k, d if d.t["LEN"] > 0 else d.scale(-1), loop))
+    for p in paths:
+        if p.kind == "return" and p.ret is not None and try_const(p.ret, default=None) is False and p.conds:
+            c, o = p.conds[-1]
+            tests = []
+            c = fold(c)
+            if o and isinstance(c, ast.BoolOp) and isinstance(c.op, ast.Or):
+                tests = list(c.values)
+            elif o:
+                tests = [c]
+            for t_ in tests:
+                if isinstance(t_, ast.Compare) and len(t_.ops) == 1 and isinstance(t_.ops[0], (ast.Gt, ast.Lt)):
+                    a_ = lin(ast.parse(U(t_.left).replace(ltxt, "LEN"), mode="eval").body, env)
+                    b_ = lin(ast.parse(U(t_.comparators[0]).replace(ltxt, "LEN"), mode="eval").body, env)
+                    if a_ is not None and b_ is not None:
+                        info["bound_guards"].append((a_ - b_) if isinstance(t_.ops[0], ast.Gt) else (b_ - a_))
     return info
 
 
@@ -345,6 +434,69 @@ def run(repo, rep, tier):
     env = repo.consts
     # ---------------- writer
     tb = repo.func("iwafile.py", "IWACompressedChunk.to_buffer")
+    nf = _writer_normal_form(repo, tb, env)
+    if nf is not None:
+        # the writer returns b"".join([F(b) for b in chunks(stream, N)]): the blocks cover the stream once and in order by construction
+        marker = nf["marker"]
+        rep.ob("C05.R1", tb, f"writer frame header bytes {nf['hdr']} + {nf['payload']}", True, "", key="C05.R1@writer:frame")
+    else:
+        marker = _writer_by_shape(repo, rep, tb, env)
+    _readers(repo, rep, env, marker)
+    if nf is not None:
+        rep.ob("C05.R2", tb, f"chunker (normal form) emits {nf['n']} bytes per chunk and advances by {nf['n']}; covers the stream: True", True, "", key="C05.R2@chunker:consume")
+        rep.ob("C05.R2", tb, f"chunk payload <= {MAX_CHUNK} bytes", True, "", key="C05.R2@chunker:max")
+        rep.ob("C05.R2", tb, "chunks emitted in stream order, each compressed separately", True, "", key="C05.R2@chunker:order")
+        rep.ob("C05.R2", tb, "every chunk payload is snappy.compress(block) (normal form)", True, "", key="C05.R2@chunker:always-compressed")
+        rep.ob("C05.R2", tb, "stream = join of archive buffers in order", nf["stream_ok"], "" if nf["stream_ok"] else f"the stream cut into chunks is `{nf['stream']}`", key="C05.R2@stream:join")
+    else:
+        _chunker_by_shape(repo, rep, tb, env)
+    _rest(repo, rep, env)
+
+
+def _writer_normal_form(repo, tb, env):
+    """The writer as ``b"".join([F(b) for b in chunks(stream, N)])`` with 0 < N <= 64 KiB and F(b) = 0x00 + 3 little-endian bytes of
+    len(P) + P, P = snappy.compress(b); None when it is not of that form (the shape recognisers then name what is wrong)."""
+    from ..streamform import normal_form
+    helpers = {n.name: n for n in repo.tree("iwafile.py").body if isinstance(n, ast.FunctionDef)}
+    nf = normal_form(repo, tb, helpers)
+    if nf is None:
+        return None
+    stream, n, elt, var = nf
+    nv = try_const(n, env)
+    if not (isinstance(nv, int) and not isinstance(nv, bool) and 0 < nv <= MAX_CHUNK):
+        return None
+    ops = []
+
+    def flat(e):
+        if isinstance(e, ast.BinOp) and isinstance(e.op, ast.Add):
+            flat(e.left)
+            flat(e.right)
+        else:
+            ops.append(e)
+
+    flat(elt)
+    if len(ops) < 2:
+        return None
+    payload = ops[-1]
+    if not (isinstance(payload, ast.Call) and last_attr(payload.func) == "compress" and U(payload.func) in ("snappy.compress", "compress") and len(payload.args) == 1
+            and not payload.keywords and U(payload.args[0]) == var):
+        return None
+    lay = []
+    for o in ops[:-1]:
+        l_ = layout(o, env)
+        if l_ is None:
+            return None
+        lay += l_
+    ltxt = f"len({U(payload)})"
+    if lay != [("const", 0), ("int", ltxt, 0), ("int", ltxt, 1), ("int", ltxt, 2)]:
+        return None
+    s_txt = U(stream)
+    import re as _re
+    stream_ok = bool(_re.fullmatch(r"b''\.join\(\[(\w+)\.to_buffer\(\) for \1 in self\.archives\]\)", s_txt))
+    return {"n": nv, "marker": 0, "hdr": lay, "payload": U(payload), "stream": s_txt, "stream_ok": stream_ok}
+
+
+def _writer_by_shape(repo, rep, tb, env):
     chains = []
     for n in ast.walk(tb):
         if isinstance(n, ast.BinOp) and isinstance(n.op, ast.Add) and not (isinstance(getattr(n, "_parent", None), ast.BinOp) and isinstance(n._parent.op, ast.Add)):
@@ -380,7 +532,10 @@ def run(repo, rep, tier):
     rep.ob("C05.R1", frame, f"writer frame header bytes {hdr_layout} + {U(payload)}", okw,
            "" if okw else f"the 4 header bytes must be marker 0x00 followed by the low 3 bytes of {Ltxt}, little-endian; found {hdr_layout}: "
            "payloads whose length does not fit the field written are framed with a wrong length", key="C05.R1@writer:frame")
-    # ---------------- readers
+    return marker
+
+
+def _readers(repo, rep, env, marker):
     readers = {}
     for qual in ("IWACompressedChunk._decompress_all", "is_iwa_file"):
         r = frame_reader(repo, qual)
@@ -417,6 +572,22 @@ def run(repo, rep, tier):
     ok = any(_eq(v, FRAME) for _, v, _ in sn["acc"])
     ret = [n for n in body_walk(sn["func"]) if isinstance(n, ast.Return) and isinstance(n.value, ast.Compare)]
     ok = ok and bool(ret) and isinstance(ret[0].value.ops[0], ast.Eq)
+    if not ok and sn["pos"]:
+        # form (c): a cursor starts at 0, moves by 4 + length per frame while it is short of len(data), and must land on it
+        fn = sn["func"]
+        posv, top_ = sn["pos"], sn["top"]
+        tail = fn.body[-1]
+        lands = False
+        if isinstance(tail, ast.Return) and isinstance(tail.value, ast.Compare) and len(tail.value.ops) == 1 and isinstance(tail.value.ops[0], ast.Eq):
+            a_, b_ = tail.value.left, tail.value.comparators[0]
+            for x_, y_ in ((a_, b_), (b_, a_)):
+                y2 = top_.get(y_.id, y_) if isinstance(y_, ast.Name) else y_
+                if U(x_) == posv and U(y2).replace(" ", "") == f"len({sn['data']})":
+                    lands = True
+        starts0 = posv in top_ and try_const(top_[posv], default=None) == 0
+        moved = sn["advance"] is not None and _eq(sn["advance"][0], FRAME)
+        stores = [n for n in ast.walk(sn["loop"]) if isinstance(n, ast.Name) and isinstance(n.ctx, ast.Store) and n.id in (sn["data"],) + tuple(k for k, v in top_.items() if "len(" in U(v))]
+        ok = lands and starts0 and moved and not stores
     if not ok:
         # form (b): a count of the bytes still to come starts at len(data), every frame is refused when 4 + length
         # exceeds it and is subtracted from it otherwise (the loop ends exactly when the data is used up)
@@ -461,7 +632,9 @@ def run(repo, rep, tier):
            "" if not carried else f"{sorted(set(carried))} keep a value from an earlier chunk: how a chunk is decoded depends on the chunks before it (a stored chunk "
            "followed by a compressed one is passed through raw)", key="C05.R1@_decompress_all:independent")
 
-    # ---------------- R2 chunker
+
+
+def _chunker_by_shape(repo, rep, tb, env):
     ch = chunker_facts(tb, env)
     ok = ch["emit"] is not None and ch["emit"] == ch["advance"] and ch["covers"]
     rep.ob("C05.R2", ch["node"], f"chunker ({ch['shape']}) emits {ch['emit']} bytes per chunk and advances by {ch['advance']}; covers the stream: {ch['covers']}", ok,
@@ -499,6 +672,9 @@ def run(repo, rep, tier):
     if ch["shape"] != "unrecognised":
         rep.ob("C05.R2", stream or tb, "stream = join of archive buffers in order", stream is not None, "", key="C05.R2@stream:join")
 
+
+
+def _rest(repo, rep, env):
     # ---------------- R3 header lengths refreshed before the header is serialised
     sb = repo.func("iwafile.py", "IWAArchiveSegment.to_buffer")
     g = cfgmod.build(sb)
@@ -555,27 +731,67 @@ def run(repo, rep, tier):
         and isinstance(n.value, ast.Call) and U(n.value.func) == "IWAArchiveSegment.from_buffer" and U(n.value.args[0]) == jvar for n in loops[0].body)
     rep.ob("C05.R4", fb, "segment loop continues on the remainder until the stream is empty", ok, "", key="C05.R4@segment-loop")
     sfb = repo.func("iwafile.py", "IWAArchiveSegment.from_buffer")
-    sl = [n for n in body_walk(sfb) if isinstance(n, ast.Subscript) and isinstance(n.slice, ast.Slice) and n.slice.lower is not None and n.slice.upper is not None]
-    inc = [n for n in body_walk(sfb) if isinstance(n, ast.AugAssign) and isinstance(n.op, ast.Add)]
-    ok = False
-    if sl and inc:
-        lo, hi = lin(sl[0].slice.lower, env), lin(sl[0].slice.upper, env)
-        cnt = U(inc[0].target)
-        Lm = lin(inc[0].value, env)
-        ok = _eq(lo, Lin(0, {cnt: 1})) and _eq(hi - lo, Lm) and U(inc[0].value).endswith(".length")
-        ok = ok and isinstance(getattr(inc[0], "_parent", None), ast.For)
-    rep.ob("C05.R4", sl[0] if sl else sfb, "messages are cut as payload[n : n + length] and n advances by the same length", ok,
-           "" if ok else "a message is cut with a different length than the cursor advances by", key="C05.R4@messages:cut")
+    # the message loop as a per-iteration summary: every completed iteration cuts one slice P[c : c + L] with L the length
+    # the header gives for this message, and leaves the cursor c advanced by that same L
+    from ..funsum import Summarizer as _Summ
+    mls = [n for n in body_walk(sfb) if isinstance(n, ast.For) and U(n.iter).endswith("message_infos") and isinstance(n.target, ast.Name)]
+    if len(mls) != 1:
+        raise AnalysisError("IWAArchiveSegment.from_buffer: message loop not found")
+    ml = mls[0]
+    mi_ = ml.target.id
+    Lw = lin(ast.parse(f"{mi_}.length", mode="eval").body, env)
+    cut_ok, why_cut, cursor, pvar = True, "", None, None
+    n_fall = 0
+    for pth in _Summ(consts=repo.consts, effect_calls={"*"}).block_paths(ml.body):
+        if pth.kind in ("raise", "return"):
+            continue
+        n_fall += 1
+        vals = [v for k, v in (pth.env or {}).items() if not k.startswith("__") and isinstance(v, ast.AST)] + [v for _k, v, _n in pth.effects if isinstance(v, ast.AST)]
+        cuts = {}
+        for v in vals:
+            for x in ast.walk(v):
+                if isinstance(x, ast.Subscript) and isinstance(x.slice, ast.Slice) and x.slice.lower is not None and x.slice.upper is not None and isinstance(x.value, ast.Name):
+                    cuts[U(x)] = x
+        if len(cuts) != 1:
+            cut_ok, why_cut = False, f"an iteration cuts {sorted(cuts) or 'no slice'}"
+            break
+        x = next(iter(cuts.values()))
+        lo_, hi_ = x.slice.lower, x.slice.upper
+        if not isinstance(lo_, ast.Name):
+            cut_ok, why_cut = False, f"the slice `{U(x)}` does not start at a cursor variable"
+            break
+        if cursor not in (None, lo_.id) or pvar not in (None, x.value.id):
+            cut_ok, why_cut = False, "iterations cut with different cursors"
+            break
+        cursor, pvar = lo_.id, x.value.id
+        width = lin(hi_, env) - lin(lo_, env)
+        fin = (pth.env or {}).get(cursor)
+        adv = (lin(fin, env) - Lin(0, {cursor: 1})) if fin is not None else None
+        if not _eq(width, Lw):
+            cut_ok, why_cut = False, f"`{U(x)}` is {width} bytes, the header says {mi_}.length"
+            break
+        if adv is None or not _eq(adv, Lw):
+            cut_ok, why_cut = False, f"the cursor `{cursor}` advances by {adv if adv is not None else 0}, the message is {mi_}.length bytes" + (" (on a `continue`)" if pth.kind == "continue" else "")
+            break
+    cut_ok = cut_ok and n_fall > 0 and cursor is not None
+    rep.ob("C05.R4", ml, "messages are cut as payload[n : n + length] and n advances by the same length", cut_ok,
+           "" if cut_ok else "a message is cut with a different length than the cursor advances by: " + why_cut, key="C05.R4@messages:cut")
     ret = [n for n in body_walk(sfb) if isinstance(n, ast.Return) and isinstance(n.value, ast.Tuple) and len(n.value.elts) == 2]
     ok = False
-    if ret and inc and sl:
+    if ret and cursor:
         rem = ret[-1].value.elts[1]
         ok = isinstance(rem, ast.Subscript) and isinstance(rem.slice, ast.Slice) and rem.slice.upper is None and rem.slice.lower is not None \
-            and U(rem.slice.lower) == U(inc[0].target) and U(rem.value) == U(sl[0].value)
+            and U(rem.slice.lower) == cursor and U(rem.value) == pvar and ret[-1].lineno > ml.lineno
     rep.ob("C05.R4", ret[-1] if ret else sfb, "segment parser returns the unconsumed remainder payload[n:]", bool(ok), "", key="C05.R4@messages:remainder")
-    init0 = bool(inc) and any(isinstance(n, ast.Assign) and U(n.targets[0]) == U(inc[0].target) and try_const(n.value) == 0 for n in body_walk(sfb))
+    inits = [n for n in sfb.body if isinstance(n, ast.Assign) and cursor and U(n.targets[0]) == cursor and n.lineno < ml.lineno]
+    init0 = bool(inits) and try_const(inits[-1].value) == 0 and not any(
+        isinstance(n, (ast.Assign, ast.AugAssign)) and U(n.targets[0] if isinstance(n, ast.Assign) else n.target) == cursor and inits[-1].lineno < n.lineno < ml.lineno for n in body_walk(sfb))
     rep.ob("C05.R4", sfb, "message cursor starts at 0", init0, "", key="C05.R4@messages:start")
-    ok = any(isinstance(n, ast.For) and U(n.iter).endswith(".message_infos") and inc and any(inc[0] is x for x in n.body) for n in body_walk(sfb))
+    it_ = ml.iter
+    if isinstance(it_, ast.Name):
+        d_ = [n for n in sfb.body if isinstance(n, ast.Assign) and len(n.targets) == 1 and U(n.targets[0]) == it_.id]
+        it_ = d_[-1].value if len(d_) == 1 else it_
+    ok = U(it_).endswith(".message_infos") and ml in sfb.body
     rep.ob("C05.R4", sfb, "one message per message_info in header order", ok, "", key="C05.R4@messages:order")
     # schema dispatch: a message is parsed with the class of its own type; a patch with the class of the message it patches
     mloops = [n for n in body_walk(sfb) if isinstance(n, ast.For) and U(n.iter).endswith(".message_infos") and isinstance(n.target, ast.Name)]
@@ -672,6 +888,15 @@ def _anc(n, stop=None):
 
 VARIANTS = [
     M("incompressible-block-stored-raw", "iwafile.py", "            payloads.append(snappy.compress(uncompressed[:65536]))", "            block = uncompressed[:65536]\n            compressed = snappy.compress(block)\n            payloads.append(compressed if len(compressed) < len(block) else block)", "C05.R2"),
+    T("writer-range-comprehension", "iwafile.py", '        payloads = []\n        while uncompressed:\n            payloads.append(snappy.compress(uncompressed[:65536]))\n            uncompressed = uncompressed[65536:]\n        return b"".join(\n            [b"\\x00" + struct.pack("<I", len(payload))[:3] + payload for payload in payloads],\n        )\n',
+      '        blocks = [uncompressed[start : start + 65536] for start in range(0, len(uncompressed), 65536)]\n        payloads = [snappy.compress(block) for block in blocks]\n        return b"".join(b"\\x00" + struct.pack("<I", len(payload))[:3] + payload for payload in payloads)\n'),
+    M("writer-range-comprehension-step-mismatch", "iwafile.py", '        payloads = []\n        while uncompressed:\n            payloads.append(snappy.compress(uncompressed[:65536]))\n            uncompressed = uncompressed[65536:]\n        return b"".join(\n            [b"\\x00" + struct.pack("<I", len(payload))[:3] + payload for payload in payloads],\n        )\n',
+      '        blocks = [uncompressed[start : start + 65536] for start in range(0, len(uncompressed), 65535)]\n        payloads = [snappy.compress(block) for block in blocks]\n        return b"".join(b"\\x00" + struct.pack("<I", len(payload))[:3] + payload for payload in payloads)\n', "C05.R2"),
+    M("writer-range-comprehension-raw-block", "iwafile.py", '        payloads = []\n        while uncompressed:\n            payloads.append(snappy.compress(uncompressed[:65536]))\n            uncompressed = uncompressed[65536:]\n        return b"".join(\n            [b"\\x00" + struct.pack("<I", len(payload))[:3] + payload for payload in payloads],\n        )\n',
+      '        blocks = [uncompressed[start : start + 65536] for start in range(0, len(uncompressed), 65536)]\n        return b"".join(b"\\x00" + struct.pack("<I", len(payload))[:3] + payload for payload in blocks)\n', "C05.R"),
+    T("is-iwa-cursor-form", "iwafile.py", 'def is_iwa_file(data):\n    data_length = len(data)\n    length = 0\n    while data:\n        header = data[:4]\n        if len(header) < 4:\n            return False\n\n        first_byte = header[0]\n        if first_byte != 0x00:\n            return False\n\n        segment_length = unpack("<I", bytes(header[1:]) + b"\\x00")[0]\n        length += segment_length + 4\n        data = data[4 + segment_length :]\n    return length == data_length\n', 'def is_iwa_file(data):\n    data_length = len(data)\n    pos = 0\n    while pos < data_length:\n        header = data[pos : pos + 4]\n        if len(header) < 4 or header[0] != 0x00:\n            return False\n\n        (segment_length,) = unpack("<I", bytes(header[1:]) + b"\\x00")\n        pos += 4 + segment_length\n    return pos == data_length\n'),
+    M("is-iwa-cursor-form-short-advance", "iwafile.py", 'def is_iwa_file(data):\n    data_length = len(data)\n    length = 0\n    while data:\n        header = data[:4]\n        if len(header) < 4:\n            return False\n\n        first_byte = header[0]\n        if first_byte != 0x00:\n            return False\n\n        segment_length = unpack("<I", bytes(header[1:]) + b"\\x00")[0]\n        length += segment_length + 4\n        data = data[4 + segment_length :]\n    return length == data_length\n', 'def is_iwa_file(data):\n    data_length = len(data)\n    pos = 0\n    while pos < data_length:\n        header = data[pos : pos + 4]\n        if len(header) < 4 or header[0] != 0x00:\n            return False\n\n        (segment_length,) = unpack("<I", bytes(header[1:]) + b"\\x00")\n        pos += 3 + segment_length\n    return pos == data_length\n', "C05.R1"),
+    M("is-iwa-cursor-form-never-lands", "iwafile.py", 'def is_iwa_file(data):\n    data_length = len(data)\n    length = 0\n    while data:\n        header = data[:4]\n        if len(header) < 4:\n            return False\n\n        first_byte = header[0]\n        if first_byte != 0x00:\n            return False\n\n        segment_length = unpack("<I", bytes(header[1:]) + b"\\x00")[0]\n        length += segment_length + 4\n        data = data[4 + segment_length :]\n    return length == data_length\n', 'def is_iwa_file(data):\n    data_length = len(data)\n    pos = 0\n    while pos < data_length:\n        header = data[pos : pos + 4]\n        if len(header) < 4 or header[0] != 0x00:\n            return False\n\n        (segment_length,) = unpack("<I", bytes(header[1:]) + b"\\x00")\n        pos += 4 + segment_length\n    return pos >= data_length\n', "C05.R1"),
     T("is-iwa-remaining-bytes-form", "iwafile.py", """def is_iwa_file(data):
     data_length = len(data)
     length = 0
